@@ -94,7 +94,7 @@ class C25(Check):
             "connect, send, recv, handshake, sendto, recvfrom) x (occurrence 0..2) x (every errno of the connection-loss "
             "set, TLS EOF, would-block, a sample of unrelated errnos) x (direct call / service loop); the seed varies "
             "message sizes, pipe size and the traffic that precedes the fault; every case is non-trivial (a fault fires "
-            "in it); distinct = distinct (case, abstract result)")
+            "in it); for the datagram stack also two transient errors in a row on sendto / recvfrom; distinct = distinct (case, abstract result)")
     components = {"real": ["ioflo.aio.tcp.clienting.Client/ClientTls", "ioflo.aio.tcp.serving.Server/ServerTls/Incomer/IncomerTls",
                            "ioflo.aio.udp.udping.SocketUdpNb", "ioflo.aio.proto.stacking.UdpStack (GramStack tx/rx service)"],
                   "stub": ["socket module", "TLS record layer / handshake (stub)", "far end", "packets (pre-packed bytes)"]}
